@@ -477,7 +477,7 @@ func (vc *FuncVC) checkWrite(key string, idx Term, what string) {
 	if key == "BigInt.val" && !vc.inBigCopy {
 		vc.bigWrites++
 	}
-	if !vc.fc.HasAssigns || vc.discovery > 0 || strings.HasPrefix(key, "def.") {
+	if !vc.fc.HasAssigns || vc.discovery > 0 || strings.HasPrefix(key, "def.") || strings.HasPrefix(key, "State.") {
 		return
 	}
 	g := vc.writeAllowed(key, idx)
@@ -911,6 +911,11 @@ func (vc *FuncVC) setupParams() {
 		}
 		vc.vals[p] = v
 		vc.params[name] = vc.toSVal(v, t)
+		if isFmtState(t) {
+			// what was written to the state before the call lies in memory allocated before the call
+			lp, ln := vc.stateLog(vc.entry, v.T)
+			vc.assume(And(Lt(IntLit(0), lp), Le(IntLit(0), ln), Le(Add(lp, ln), vc.entry.cnt)))
+		}
 	}
 	// ghost variables of the contract: arbitrary values (the obligations are proved for all of them)
 	for _, gp := range vc.fc.Ghosts {
@@ -1373,7 +1378,7 @@ func (vc *FuncVC) enterBlock(b *ssa.BasicBlock) {
 			break
 		}
 		vc.vals[phi] = vc.mergePhi(phi, b, conds, preds)
-		if phi.Comment != "" && vc.vals[phi].Kind == vScalar {
+		if phi.Comment != "" && (vc.vals[phi].Kind == vScalar || vc.vals[phi].Kind == vSlice) {
 			vc.bind(phi.Comment, b, vc.toSVal(vc.vals[phi], phi.Type()))
 		}
 	}
